@@ -264,8 +264,8 @@ class SliceModel:
             return self._param_memo[k]
         self._param_memo[k] = (False, 'recursive')
         sites = []
-        for caller_id in self.prog.callers.get(body.id, ()):
-            sites += self.prog.edge_sites.get((caller_id, body.id), [])
+        for caller_id in self.prog.callers.get(getattr(body, 'orig_id', body.id), ()):
+            sites += self.prog.edge_sites.get((caller_id, getattr(body, 'orig_id', body.id)), [])
         res = (bool(sites), 'every call site passes B for parameter %d of %s' % (o.data, body.name.split('::')[-1]))
         if not sites:
             res = (False, 'parameter of a body without call sites')
@@ -307,8 +307,8 @@ class SliceModel:
             return False, 'untraceable'
         if ao.kind == 'param' and not ao.proj and not body.is_closure:
             sites = []
-            for caller_id in self.prog.callers.get(body.id, ()):
-                sites += self.prog.edge_sites.get((caller_id, body.id), [])
+            for caller_id in self.prog.callers.get(getattr(body, 'orig_id', body.id), ()):
+                sites += self.prog.edge_sites.get((caller_id, getattr(body, 'orig_id', body.id)), [])
             if not sites:
                 return False, 'no call sites'
             for c in sites:
@@ -478,8 +478,8 @@ def vetted_bound(sm, b, c, which, op):
         return None
     # (b)
     sites = []
-    for caller_id in sm.prog.callers.get(b.id, ()):
-        sites += sm.prog.edge_sites.get((caller_id, b.id), [])
+    for caller_id in sm.prog.callers.get(getattr(b, 'orig_id', b.id), ()):
+        sites += sm.prog.edge_sites.get((caller_id, getattr(b, 'orig_id', b.id)), [])
     if not sites:
         return None
     for cs in sites:
